@@ -255,7 +255,7 @@ func runWaitOnce(sc *WaitScenario) (res waitRun) {
 		}
 		rt := &nodeRT{env: e, id: 0, visit: -1}
 		e.rts[0] = rt
-		b := &batchImpl{rt: rt, cfg: sc.Batch, attempts: map[[2]int]int{}, itemTok: map[int][]int{}}
+		b := &batchImpl{rt0: rt, cfg: sc.Batch}
 		b.gate = func(i, k int) { t.enter(i, k); t.leave(i, k) }
 		node = e.buildBatchWith(b)
 	default:
